@@ -7,6 +7,7 @@ An attribute set is an ordered list of entries:
 
 from __future__ import annotations
 
+import re
 import copy
 
 from vf import cst
@@ -43,6 +44,10 @@ def _conv(items):
     return out
 
 
+_COMMENT_RE = re.compile(r"#[^\n]*|/\*.*?\*/", re.S)
+_BLANK_RE = re.compile(r"\n[ \t]*\n")
+
+
 class View:
     """What the independent reader sees in a document."""
 
@@ -76,6 +81,21 @@ class View:
                 continue
             out.append(t.key())
         return out
+
+    def after_in_trivia(self):
+        """Per enclosing let (outermost first): (comment texts, blank line present) between its `in` and the next token."""
+        res = []
+        toks = cst.tokens(self.tree)
+        for ln in self.let_nodes:
+            kw = next((k for k in ln.children if k.type == "in"), None)
+            if kw is None:
+                res.append(None)
+                continue
+            nxt = min((t.start for t in toks if t.start >= kw.end_byte), default=len(self.tree.src))
+            gap = self.tree.src[kw.end_byte : nxt].decode("utf-8", "replace")
+            comments = tuple(c.strip() for c in _COMMENT_RE.findall(gap))
+            res.append((comments, bool(_BLANK_RE.search(_COMMENT_RE.sub("", gap)))))
+        return res
 
     def lets_adjacent(self) -> bool:
         """True when every enclosing let sits directly in front of the core (no other wrapper in between)."""
